@@ -211,7 +211,10 @@ def r_apply(cache, kind, op, keys):
         return None if v is None else v.uid
     if o == "put":
         real = _ANSWERS.get(op[2])  # (a negative Answer is falsy: test identity, not truth)
-        return cache.put(keys[op[1]], real if real is not None else FakeAnswer(op[3], op[2]))
+        if real is None:
+            # (kept, so that storing "the same answer again" hands over the identical object)
+            real = _ANSWERS[op[2]] = FakeAnswer(op[3], op[2])
+        return cache.put(keys[op[1]], real)
     if o == "flush":
         return cache.flush(keys[op[1]])
     if o == "flushall":
@@ -303,6 +306,8 @@ def _gen_op(rng, kind, nkeys):
     if r < 0.38:
         return ["get", k]
     if r < 0.72:
+        if rng.random() < 0.15:
+            return ["put", k, None, 60, "same"]
         return ["put", k, None, rng.choice([-1, 0, 0.5, 1, 1, 5, 5, 60])]
     if r < 0.8:
         return ["flush", k]
@@ -425,7 +430,16 @@ def _run_seq(case, res, log):
             continue
         op = list(op)
         now = VT.now
-        if op[0] == "put":
+        same = None
+        if op[0] == "put" and len(op) > 4 and op[4] == "same":
+            # store the very Answer object the key holds already (a refresh of the entry)
+            same = [e for e in st[0] if e[0] == op[1] and e[2] > now]
+            op = op[:4]
+        if op[0] == "put" and same:
+            op[2] = same[0][1]
+            op[3] = same[0][2]
+            res.probes.inc("same_answer_object_stored_again")
+        elif op[0] == "put":
             uid += 1
             op[2] = uid
             prepare_answer(uid, op[3], now + op[3], res)
@@ -596,6 +610,7 @@ def _run_conc(case, res, log):
                     log.add("adv", t.idx, round(VT.now, 3))
                     continue
                 if op[0] == "put":
+                    op = op[:4]  # (the "same object again" form belongs to the sequential tier)
                     uid[0] += 1
                     op[2] = uid[0]
                     prepare_answer(uid[0], op[3], VT.now + op[3], res)
